@@ -74,6 +74,9 @@ type c02HS struct {
 	method string         // b1, b2 only ("" = GET)
 	status int            // 0 = 200
 	judge  func(v refsxg.Version) int
+	// mayRefuse: the library may decline to MI-encode / sign this exchange (then nothing is claimed);
+	// if it agrees, the exchange is judged like any other
+	mayRefuse bool
 }
 
 func c02Always(j int) func(refsxg.Version) int { return func(refsxg.Version) int { return j } }
@@ -134,6 +137,11 @@ var c02HeaderSets = []c02HS{
 	}},
 	{name: "status-404", resp: c02Resp(), status: 404, judge: c02Always(c02JudgeFull)},
 	{name: "status-599", resp: c02Resp(), status: 599, judge: c02Always(c02JudgeSame)},
+	// responses that already carry one of the header fields MiEncodePayload adds
+	{name: "preexisting-digest-other-algorithm", resp: c02Resp(c02F("Digest", "sha-256=47DEQpj8HBSa+/TImW+5JCeuQeRkm5NMpJWZG3hSuFU=")), judge: c02Always(c02JudgeFull), mayRefuse: true},
+	{name: "preexisting-empty-digest", resp: c02Resp(c02F("Digest", "")), judge: c02Always(c02JudgeFull), mayRefuse: true},
+	{name: "preexisting-empty-mi-draft2", resp: c02Resp(c02F("Mi-Draft2", "")), judge: c02Always(c02JudgeFull), mayRefuse: true},
+	{name: "preexisting-content-encoding", resp: c02Resp(c02F("Content-Encoding", "gzip")), judge: c02Always(c02JudgeFull), mayRefuse: true},
 	{name: "noncanonical-policy-keys", resp: func() []refsxg.Field {
 		return []refsxg.Field{c02F("content-type", "text/html")}
 	}, judge: c02Always(c02Record)},
@@ -351,13 +359,23 @@ func c02Build(ver c08Ver, k c02Key, url, method string, req, resp []refsxg.Field
 	}
 	full := append(append([]refsxg.Field{}, resp...),
 		refsxg.Field{Name: "Content-Encoding", Values: []string{refsxg.ContentEncodingName(ver.ref)}},
-		refsxg.Field{Name: refsxg.DigestHeaderName(ver.ref), Values: []string{e.ResponseHeaders.Get(refsxg.DigestHeaderName(ver.ref))}})
+		refsxg.Field{Name: refsxg.DigestHeaderName(ver.ref), Values: []string{c02LastValue(e.ResponseHeaders, refsxg.DigestHeaderName(ver.ref))}})
 	b := &c02Built{e: e, payload: payload, chain: c08ChainCBOR(k.certs), date: date, expires: date + window}
 	b.x = &refsxg.Exchange{Version: ver.ref, URL: url, Method: method, ReqHeaders: req, Status: status, RespHeaders: full,
 		Signature: e.SignatureHeaderValue, Payload: e.Payload}
 	b.wantResp = refsxg.Fold(full)
 	b.wantReq = refsxg.Fold(req)
 	return b, nil
+}
+
+// c02LastValue: the digest MiEncodePayload added is the last value of its header field (the only one unless the
+// response already carried that field).
+func c02LastValue(h http.Header, name string) string {
+	vs := h.Values(name)
+	if len(vs) == 0 {
+		return ""
+	}
+	return vs[len(vs)-1]
 }
 
 func c02Write(e *signedexchange.Exchange) (out []byte, err error, pan string) {
@@ -433,6 +451,10 @@ func c02Roundtrip(c *mc.Ctx) {
 	url := urlSpelling
 	b, err := c02Build(ver, k, url, method, hs.req, hs.resp(), status, payload, rs, c02Date, window, c08Origin+"cert.cbor", nil)
 	if err != nil {
+		if hs.mayRefuse {
+			c.Outcome(fmt.Sprintf("library declines to encode / sign (nothing claimed): %s %s", hs.name, ver.ref))
+			return
+		}
 		fail("build", "the library refused to build / sign a plain exchange", "nil", err.Error())
 		return
 	}
@@ -676,7 +698,7 @@ func init() {
 	register(&mc.Property{
 		ID:    "C02",
 		Level: "model_checking",
-		Rule:  "C02/roundtrip: full product (no deviation bound) of version {1b1,1b2,1b3} x key {P-256, P-384} x MI record size {1,2,16,4096,16384; thorough +3,17,255,256,16383} x payload length {0,1,rs-1,rs,rs+1,2rs,2rs+1; thorough +3rs-1,3rs,3rs+1} (<= 40000, duplicates removed) x 15 header sets (minimal; multi-valued fields with lower/UPPER/MiXeD names in request and response; multi-valued Cache-Control benign / no-store second / first / only; 65536-byte value and 262-byte name; 30 fields; empty and comma-holding values; Set-Cookie; HEAD; POST; 404; 599; non-canonical policy keys (recorded only)) x window {3600; thorough +2, 604800}; each exchange is signed with real ECDSA, verified at 7 instants, written, read back by refsxg and by ReadExchange and verified again at the same instants. C02/limits: the 18 length-field boundary exchanges (fallback URL 65535/65536 in all versions, Signature header 16384/16385 and header block 524288/524289 in b2/b3, both 3-byte fields at 2^24-1/2^24 in b1). A round-trip case is non-trivial when the generator knows it meets the acceptance policy, so the whole verdict vector and the returned payload are judged; a limits case is non-trivial when it is over the limit.",
+		Rule:  "C02/roundtrip: full product (no deviation bound) of version {1b1,1b2,1b3} x key {P-256, P-384} x MI record size {1,2,16,4096,16384; thorough +3,17,255,256,16383} x payload length {0,1,rs-1,rs,rs+1,2rs,2rs+1; thorough +3rs-1,3rs,3rs+1} (<= 40000, duplicates removed) x 19 header sets (minimal; four responses that already carry Digest (other algorithm / empty), an empty MI-Draft2 or Content-Encoding before MI-encoding: the library may decline, otherwise the full oracle applies; multi-valued fields with lower/UPPER/MiXeD names in request and response; multi-valued Cache-Control benign / no-store second / first / only; 65536-byte value and 262-byte name; 30 fields; empty and comma-holding values; Set-Cookie; HEAD; POST; 404; 599; non-canonical policy keys (recorded only)) x window {3600; thorough +2, 604800}; each exchange is signed with real ECDSA, verified at 7 instants, written, read back by refsxg and by ReadExchange and verified again at the same instants. C02/limits: the 18 length-field boundary exchanges (fallback URL 65535/65536 in all versions, Signature header 16384/16385 and header block 524288/524289 in b2/b3, both 3-byte fields at 2^24-1/2^24 in b1). A round-trip case is non-trivial when the generator knows it meets the acceptance policy, so the whole verdict vector and the returned payload are judged; a limits case is non-trivial when it is over the limit.",
 		Assumptions: []string{
 			"refsxg (independent parser / serializer of the file layout) and refcbor are correct",
 			"the MI digest value is taken from the implementation (C14 checks MI encoding); the round trip is judged on what the library itself produced when signing",
